@@ -356,3 +356,35 @@ def check_fwd(ix, rep, attr='unit', rule='R-FWD'):
         rep.ok(rule, spec.module.rel, 'AbstractSpecification.%s' % attr, attr, 'setter forwards to ast.%s (read at %d sites)' % (attr, readers), setter.node.lineno)
     else:
         rep.fail(rule, spec.module.rel, 'AbstractSpecification.%s' % attr, attr, 'the setter does not assign self.ast.%s' % attr, setter.node.lineno)
+
+
+def check_forwarding_calls(ix, rep, name_filter, rule='R-FWD'):
+    """a specification method that forwards to the interpreters' method of the same name hands over every one of its own parameters,
+    in order, to every interpreter it forwards to (a dropped argument silently leaves that interpreter at its default)"""
+    spec = ix.find_class('rtamt.spec.abstract_specification', 'AbstractSpecification')
+    n = 0
+    for cls in [spec] + [c for m in ix.modules.values() if m.name.startswith('rtamt.spec.abstract') for c in m.classes.values() if c is not spec]:
+        for mname, f in sorted(cls.methods.items()):
+            if not name_filter(mname):
+                continue
+            params = [a.arg for a in f.node.args.args[1:]]
+            if not params:
+                continue
+            for c in ast.walk(f.node):
+                if isinstance(c, ast.Call) and isinstance(c.func, ast.Attribute) and c.func.attr == mname and isinstance(c.func.value, ast.Attribute) \
+                        and isinstance(c.func.value.value, ast.Name) and c.func.value.value.id == 'self' and c.func.value.attr.endswith('interpreter'):
+                    n += 1
+                    rep.analysed(f)
+                    rep.unit(f.module.rel)
+                    got = [a.id if isinstance(a, ast.Name) else ast.unparse(a) for a in c.args] + ['%s=%s' % (k.arg, ast.unparse(k.value)) for k in c.keywords]
+                    passed = [a.id for a in c.args if isinstance(a, ast.Name)] + [k.value.id for k in c.keywords if isinstance(k.value, ast.Name) and k.arg == k.value.id]
+                    slot = '%s->%s' % (mname, c.func.value.attr)
+                    pos_ok = [a.id if isinstance(a, ast.Name) else None for a in c.args] == params[:len(c.args)]
+                    if pos_ok and set(passed) == set(params):
+                        rep.ok(rule, f.module.rel, f.qual, slot, 'forwards (%s)' % ', '.join(params), c.lineno)
+                    else:
+                        missing = [p for p in params if p not in passed]
+                        rep.fail(rule, f.module.rel, f.qual, slot, '%s() forwards (%s) to self.%s; its own parameters are (%s)%s' % (
+                            mname, ', '.join(got), c.func.value.attr, ', '.join(params),
+                            (': `%s` never reaches that interpreter, which keeps its default' % missing[0]) if missing else ''), c.lineno)
+    return n
